@@ -250,11 +250,11 @@ def unreadable_ok(o):
 # generators
 # --------------------------------------------------------------------------
 def sizes_for(cs, tmpsz):
-    s = [0, 1, 2, 3, 63, 64, 65, 100, 255, 256, 500, 1023, 1024, 1025, cs // 2 - 1, cs // 2, cs // 2 + 1,
+    s = [1, 2, 3, 63, 64, 65, 100, 255, 256, 500, 1023, 1024, 1025, cs // 2 - 1, cs // 2, cs // 2 + 1,
          cs - 2, cs - 1, cs, cs + 1, cs + 2, 2 * cs - 1, 2 * cs, 2 * cs + 1, 3 * cs + 7]
     if tmpsz and tmpsz <= 16384:
         s += [tmpsz - 1, tmpsz, tmpsz + 1]
-    return [x for x in s if x >= 0]
+    return [x for x in s if x > 0]
 
 
 OPS_W = [("am", 14), ("an", 4), ("ab", 7), ("bo", 5), ("gm", 6), ("af", 6), ("ad", 5), ("ac", 3),
@@ -262,9 +262,12 @@ OPS_W = [("am", 14), ("an", 4), ("ab", 7), ("bo", 5), ("gm", 6), ("af", 6), ("ad
          ("co", 2), ("pk", 6), ("rd", 5), ("sq", 3), ("rs", 2)]
 
 
-def gen_seq(rng, nops, cs, tmpsz, files, big=False, faulty=False):
-    """generate one op sequence; tracks fault-free lengths so that most
-    operations respect the callers' obligations"""
+def gen_seq(rng, nops, cs, tmpsz, files, big=False, faulty=False, zero=False):
+    """One op sequence.  Tracks fault-free lengths so that most operations
+    respect the callers' obligations.  zero=False keeps 0-length chunks out of
+    the queues (no empty append_buffer_open/commit, no 0-byte temp-file append,
+    no 0-byte steal): chunk.c calls them "unexpected"; they get their own
+    stream (zero=True)."""
     sz = sizes_for(cs, tmpsz)
     if big:
         sz = sz + [65535, 65536, 65537, 131071, 131072, 4 * cs + 1]
@@ -273,6 +276,7 @@ def gen_seq(rng, nops, cs, tmpsz, files, big=False, faulty=False):
     weights = [w for _, w in OPS_W]
     ops = []
     seed = rng.randint(1, 250)
+    z = [0] if zero else []
     for _ in range(nops):
         ln = [max(x, 0) for x in ln]
         op = rng.choices(names, weights)[0]
@@ -281,9 +285,11 @@ def gen_seq(rng, nops, cs, tmpsz, files, big=False, faulty=False):
             qi = 1 - qi
         seed += 1
         if op in ("am", "an", "ab", "bo", "mt"):
-            n = rng.choice(sz)
+            n = rng.choice(sz + z * 4)
             if op in ("ab", "bo") and rng.random() < 0.5:
-                n = rng.choice([0, 1, 10, 500, 1023, 1024, 1025])
+                n = rng.choice([1, 10, 500, 1023, 1024, 1025] + z * 2)
+            if op in ("am", "an", "ab") and rng.random() < 0.05:
+                n = 0       # harmless: nothing is appended
             ops.append("%s,%d,%d,%d" % (op, qi, seed, n)); ln[qi] += n
         elif op == "gm":
             req = rng.choice([0, 1, 100, cs // 2, cs - 1, cs, cs + 1, 2 * cs])
@@ -303,7 +309,10 @@ def gen_seq(rng, nops, cs, tmpsz, files, big=False, faulty=False):
             ops.append("ac,%d" % qi); ln[qi] += ln[1 - qi]; ln[1 - qi] = 0
         elif op in ("st", "sw"):
             a = ln[1 - qi]
-            n = rng.choice([0, 1, a, a, a // 2, max(a - 1, 0), a + 1, min(a, cs), min(a, cs + 1), rng.randint(0, a + 2)])
+            n = rng.choice([1, a, a, a // 2, max(a - 1, 0), a + 1, min(a, cs), min(a, cs + 1),
+                            rng.randint(0, a + 2)] + z * 2)
+            if n == 0 and not zero:
+                n = 1
             ops.append("%s,%d,%d" % (op, qi, n))
             m = min(n, a); ln[qi] += m; ln[1 - qi] -= m
         elif op == "cr":
@@ -312,7 +321,8 @@ def gen_seq(rng, nops, cs, tmpsz, files, big=False, faulty=False):
             off = rng.choice([0, 0, 1, a // 2, a, a + 1, rng.randint(0, a + 1)])
             n = rng.choice([0, 1, a, a // 2, max(a - off, 0), rng.randint(0, a + 2), cs + 1])
             ops.append("cr,%d,%d,%d,%d" % (qi, s, off, n))
-            ln[qi] += max(0, min(n, a - off))
+            if s != qi or off + n <= a:
+                ln[qi] += max(0, min(n, a - off))
         elif op == "mw":
             a = ln[qi]
             if faulty:
@@ -341,7 +351,8 @@ def gen_wsched(rng, n, maxw):
     for _ in range(n):
         k = rng.choice("kkksssine")
         if k == "s":
-            items.append("s%d" % rng.choice([1, 1, 2, 10, 100, 500, 1023, 1024, 1025, maxw // 2, maxw, rng.randint(1, max(maxw, 2))]))
+            items.append("s%d" % rng.choice([0, 1, 1, 2, 10, 100, 500, 1023, 1024, 1025, maxw // 2, maxw,
+                                             rng.randint(1, max(maxw, 2))]))
         else:
             items.append(k)
     return ",".join(items) if items else "-"
@@ -352,45 +363,65 @@ def header(cs, tmpsz, ndirs, ws, ms, files):
                                       ",".join(str(f) for f in files) if files else "-")
 
 
-def gen_random(ctx, n, faulty, big=False):
-    rng = ctx.rng
+def gen_random(rng, n, faulty, big=False, zero=False, maxops=30):
     lines = []
     for _ in range(n):
         cs = rng.choice([1024, 1024, 2048, 4096, 8192, 0]) if not big else rng.choice([8192, 0, 4096])
-        tmpsz = rng.choice([1, 1000, 2048, 4096, 5000, 16384, 65536, 0]) if not big else rng.choice([65536, 0, 0, 100000])
+        tmpsz = rng.choice([1, 1000, 2048, 4096, 5000, 16384, 65536, 0]) if not big \
+            else rng.choice([65536, 0, 0, 100000])
         ndirs = rng.choice([0, 1, 2, 3])
         files = [rng.choice([0, 1, 100, 5000, 20000]) for _ in range(rng.randint(0, 3))]
         if big and files:
             files[0] = 200000
         ecs = cs or 8192
-        nops = rng.randint(2, 12) if big else rng.randint(3, 30)
+        nops = rng.randint(2, 12) if big else rng.randint(3, maxops)
         ws, ms = "-", "-"
         if faulty:
             ws = gen_wsched(rng, rng.randint(1, 8), 3 * ecs)
             if rng.random() < 0.4:
                 ms = "".join(rng.choice("kkf") for _ in range(rng.randint(1, 6)))
-        ops = gen_seq(rng, nops, ecs, tmpsz, files, big=big, faulty=faulty)
+        ops = gen_seq(rng, nops, ecs, tmpsz, files, big=big, faulty=faulty, zero=zero)
         if ops:
             lines.append(header(cs, tmpsz, ndirs, ws, ms, files) + " " + " ".join(ops))
     return lines
 
 
-FAULTS = ["k", "i", "n", "e", "s0", "s1", "s700", "s1024", "s1500", "s3000"]
-
-
-def gen_fault_positions(ctx, nbase, maxcalls):
-    """every position in a short spill sequence at which a temp-file write
-    fails or is short (exhaustive over FAULTS at each write-call index),
-    plus mkostemp failure at every call index"""
-    rng = ctx.rng
+def gen_megabyte(rng, n):
+    """default chunk size and the default 1 MiB temp-file size: spills that
+    cross the temp-file boundary"""
     lines = []
+    for _ in range(n):
+        ops = []
+        seed = rng.randint(1, 200)
+        tot = 0
+        while tot < 1048576 + 70000:
+            seed += 1
+            k = rng.choice([65535, 65536, 65537, 131072, 262144, 300001])
+            ops.append("%s,0,%d,%d" % (rng.choice(["am", "ab", "bo", "mt"]), seed, k)); tot += k
+            if rng.random() < 0.4:
+                m = rng.choice([k, k // 2, 65536, tot])
+                ops.append("sw,1,%d" % m)
+        ops.append("sw,1,%d" % (2 * tot))
+        ops.append("pk,1,70000")
+        ops.append("mw,1,%d" % rng.choice([65536, 1048576, 1048577]))
+        ops.append("rd,1,65537")
+        ws = "-" if rng.random() < 0.5 else gen_wsched(rng, 4, 200000)
+        lines.append(header(0, 0, rng.choice([0, 2]), ws, "-", []) + " " + " ".join(ops[:50]))
+    return lines
+
+
+FAULTS = ["i", "n", "e", "s0", "s1", "s700", "s1024", "s1500", "s3000"]
+
+
+def gen_spill_bases(rng, nbase):
+    """short (<= 8 ops) spill-heavy sequences"""
+    bases = []
     for _ in range(nbase):
         cs = rng.choice([1024, 2048])
         tmpsz = rng.choice([1000, 2048, 4096, 0])
         ndirs = rng.choice([0, 1, 2, 3])
         files = [rng.choice([100, 5000])]
         ops = []
-        # spill-heavy sequence of <= 8 ops
         sz = sizes_for(cs, tmpsz)
         seed = rng.randint(1, 200)
         for _k in range(rng.randint(1, 3)):
@@ -404,30 +435,51 @@ def gen_fault_positions(ctx, nbase, maxcalls):
             if r < 0.55:
                 ops.append("sw,%d,%d" % (rng.randint(0, 1), rng.choice([1, 500, cs, cs + 1, 3 * cs, 100000])))
             elif r < 0.8:
-                ops.append("mt,%d,%d,%d" % (rng.randint(0, 1), seed, rng.choice([0, 1, 700, cs, 2 * cs + 1])))
+                ops.append("mt,%d,%d,%d" % (rng.randint(0, 1), seed, rng.choice([1, 700, cs, 2 * cs + 1])))
             else:
                 ops.append("am,%d,%d,%d" % (rng.randint(0, 1), seed, rng.choice(sz)))
         ops.append("pk,%d,%d" % (rng.randint(0, 1), 100000))
         if rng.random() < 0.5:
             ops.append("mw,%d,%d" % (rng.randint(0, 1), rng.choice([0, 1, 100])))
-        ops = ops[:8]
-        body = " ".join(ops)
-        for pos in range(maxcalls):
-            for f in FAULTS[1:]:
+        bases.append(((cs, tmpsz, ndirs, files), " ".join(ops[:8])))
+    return bases
+
+
+def gen_fault_positions(exe, rng, nbase):
+    """every position in a short spill sequence at which a temp-file write
+    fails or is short: the number of write()/mkostemp() calls of each base
+    sequence is measured by a dry run of the implementation, then every fault
+    kind is injected at every call index (plus a second fault right after)"""
+    bases = gen_spill_bases(rng, nbase)
+    dry = [header(*b[0][:3], ",".join(["k"] * 40), "k" * 40, b[0][3]) + " " + b[1] for b in bases]
+    out, rc, err = C.run_lines([exe], dry)
+    lines = []
+    npos = 0
+    for (cfg, body), o in zip(bases, out):
+        tail = o.rsplit(" | ", 1)[-1].split(" ")
+        kv = dict(x.split(":", 1) for x in tail if ":" in x)
+        try:
+            nw, nm = 40 - int(kv["ws"]), 40 - int(kv["ms"])
+        except (KeyError, ValueError):
+            continue
+        cs, tmpsz, ndirs, files = cfg
+        for pos in range(nw):
+            npos += 1
+            for f in FAULTS:
                 ws = ",".join(["k"] * pos + [f])
                 lines.append(header(cs, tmpsz, ndirs, ws, "-", files) + " " + body)
-                if f in ("n", "s700"):
-                    # a second fault right after the first
-                    for g in ("n", "e", "i", "s1"):
-                        lines.append(header(cs, tmpsz, ndirs, ws + "," + g, "-", files) + " " + body)
-        for pos in range(maxcalls):
+                for g in ("n", "e", "i", "s1"):
+                    lines.append(header(cs, tmpsz, ndirs, ws + "," + g, "-", files) + " " + body)
+        for pos in range(nm):
+            npos += 1
             ms = "k" * pos + "f"
             lines.append(header(cs, tmpsz, ndirs, "-", ms, files) + " " + body)
-            lines.append(header(cs, tmpsz, ndirs, "n", ms + "f", files) + " " + body)
-    return lines
+            lines.append(header(cs, tmpsz, ndirs, "-", ms + "f", files) + " " + body)
+            lines.append(header(cs, tmpsz, ndirs, "n", ms + "ff", files) + " " + body)
+    return lines, npos
 
 
-def gen_exhaustive_small(ctx, depth):
+def gen_exhaustive_small(depth):
     """all op sequences of the given depth over a small op alphabet"""
     import itertools
     alpha = ["am,0,1,700", "am,0,2,1100", "ab,0,3,1023", "af,0,0,10,50", "st,1,900", "sw,1,1500",
@@ -449,43 +501,89 @@ HAND = [
     # > 16 mem chunks in dest and in src
     "seq 1024 0 1 - - - " + " ".join("an,1,%d,1030" % i for i in range(18)) + " am,0,40,10 sw,1,10 pk,1,100000",
     "seq 1024 0 1 - - - " + " ".join("an,0,%d,1030" % i for i in range(18)) + " sw,1,100000 pk,1,100000",
+    "seq 1024 2000 1 s20000,s3 - - " + " ".join("an,0,%d,1030" % i for i in range(20)) + " sw,1,100000 pk,1,100000",
     # temp file size threshold, closed temp file, partial steal of a closed temp chunk, unlink hazard
     "seq 1024 1000 1 - - - mt,0,1,1500 mt,0,2,10 st,1,700 mw,0,810 pk,1,700 pk,0,100",
     # all mkostemp attempts fail; then reset re-arms tempdir_idx
     "seq 1024 0 3 - fff - am,0,1,100 sw,1,100 sw,1,100 rs,1 sw,1,100",
-    # empty chunks
-    "seq 1024 0 1 - - 100 mt,0,1,0 am,0,2,0 ab,0,3,0 bo,0,4,0 am,0,5,5 bo,0,6,0 sq,0 pk,0,10 re,0 st,1,5",
-    "seq 1024 0 1 - - 100 am,0,1,5 bo,0,2,0 sq,0 pk,0,10",
+    # a closed temp file re-opened read-only by a reader: the next append gets EBADF
+    "seq 1024 5000 1 k,e - - mt,0,1,64 mt,0,2,10 rd,0,10 mt,0,3,10 am,1,4,6 sw,0,6",
+    # ENOSPC walks the upload dirs
+    "seq 1024 0 3 n,n,n,n - - am,0,1,100 sw,1,100 am,0,2,100 sw,1,100 rs,1 am,0,3,5 sw,1,5",
+]
+
+# the four places where the pinned tree mishandles 0-length chunks / 0-byte
+# steals (see the header of lean/LtVerif/Model/Cq.lean); one stream each so
+# that every one of them is reported with its own replay
+ZERO_PROBES = [
+    ("cq(0-length: read_squash next to an empty chunk)",
+     ["seq 1024 0 1 - - - am,0,1,5 bo,0,2,0 sq,0 pk,0,10",
+      "seq 1024 0 1 - - 100 mt,0,1,0 bo,0,4,0 am,0,5,5 bo,0,6,0 sq,0 pk,0,10 re,0 st,1,5"]),
+    ("cq(0-length: steal of 0 bytes from a file chunk)",
+     ["seq 1024 0 1 - - 100 ad,0,0,0,10 ad,1,0,10,20 st,0,0 pk,0,100 pk,1,100",
+      "seq 1024 0 1 - - 100 am,0,1,10 ad,1,0,10,20 sw,0,0 pk,0,100",
+      "seq 1024 0 1 - - 100 af,1,0,0,50 st,0,0 pk,0,100"]),
+    ("cq(0-length: use_memory(0) on an empty last chunk)",
+     ["seq 1024 0 1 - - - bo,0,1,0 gm,0,1,2,0 am,0,3,10 pk,0,100"]),
+    ("cq(0-length: to_tempfiles with a trailing empty chunk)",
+     ["seq 1024 0 1 - - - am,0,1,100 mt,1,2,0 ac,0 mt,0,3,10 pk,0,1000"]),
 ]
 
 
 # --------------------------------------------------------------------------
+NOTABLE = ("mt:-1", "sw:-1", "sq:0", "pk:-1", "rd:-1", "cm:skip", "mw:skip", "cr:skip", "co:skip")
+
+
 def classify(line, out):
-    """coverage key: set of (op, outcome class) pairs is too big for one key,
-    so key = configuration class + multiset signature of notable events"""
+    """coverage key = configuration class + chunk kinds seen + notable
+    (error / skipped) operation outcomes + fault kinds scheduled"""
     t = line.split(" ")
     if out in ("bad-op", "<crash>"):
         return out
     ev = set()
     steps = out.split(" | ")
     ops = t[7:]
+    lay = set()
     for i, o in enumerate(ops):
-        res = steps[i].split(" ", 1)[0] if i < len(steps) else "?"
+        p = steps[i].split(" ") if i < len(steps) else ["?"]
         name = o.split(",")[0]
-        r = res.split(":")
-        cls = name
+        r = p[0].split(":")
         if len(r) > 1:
-            if name in ("mt", "sw", "sq"):
-                cls += ":" + r[1]
-            elif name in ("pk", "rd"):
-                cls += ":" + r[1].split(",")[0]
-            elif name in ("cm", "co"):
-                cls += ":" + r[1]
-        ev.add(cls)
-    has_t = " t:-" not in out.replace("end", "")
+            cls = name + ":" + r[1].split(",")[0]
+            if cls in NOTABLE:
+                ev.add(cls)
+        for x in p[1:3]:
+            for c in x.rsplit(",", 1)[-1].split("."):
+                if c and c[0] in "MFT":
+                    lay.add(c[0] + ("+" if c.endswith("+") else ""))
+    fk = "".join(sorted(set(x[0] for x in t[4].split(",")) - {"-", "k"})) + ("m" if "f" in t[5] else "")
     return "cs%s:tmp%s:d%s:%s:%s:%s" % (t[1], "0" if t[2] == "0" else ("s" if int(t[2]) <= 5000 else "l"), t[3],
-                                        "F" if t[4] != "-" or t[5] != "-" else "f",
-                                        "T" if has_t else "t", "+".join(sorted(ev))[:80])
+                                        fk or "nofault", "".join(sorted(lay)), "+".join(sorted(ev)))
+
+
+FIRED = [0]
+
+
+def count_fired(line, out):
+    """scheduled non-ok syscall results the implementation actually consumed"""
+    t = line.split(" ")
+    if t[4] == "-" and t[5] == "-":
+        return
+    tail = out.rsplit(" | ", 1)[-1].split(" ")
+    kv = dict(x.split(":", 1) for x in tail if ":" in x)
+    try:
+        ws = [] if t[4] == "-" else t[4].split(",")
+        used = ws[:len(ws) - int(kv.get("ws", 0))]
+        FIRED[0] += sum(1 for x in used if x != "k")
+        ms = "" if t[5] == "-" else t[5]
+        FIRED[0] += ms[:len(ms) - int(kv.get("ms", 0))].count("f")
+    except ValueError:
+        pass
+
+
+def checked(line, out):
+    count_fired(line, out)
+    return oracle(line, out)
 
 
 def run(ctx):
@@ -494,32 +592,40 @@ def run(ctx):
         ctx.broken.append({"kind": "harness-build", "names": ["h_cq"], "log": err[-3000:]})
         return
     q = ctx.quick
+    rng = ctx.rng
+    fpos, npos = gen_fault_positions(exe, rng, 60 if q else 600)
     streams = [
-        ("cq(hand-written + exhaustive small scope)", HAND + gen_exhaustive_small(ctx, 3)),
-        ("cq(random op sequences, no faults)", gen_random(ctx, 2500 if q else 25000, False)),
-        ("cq(random op sequences, fault schedules)", gen_random(ctx, 2500 if q else 25000, True)),
-        ("cq(every fault position in spill sequences)", gen_fault_positions(ctx, 12 if q else 120, 5 if q else 8)),
-        ("cq(64 KiB / 1 MiB sizes)", gen_random(ctx, 40 if q else 400, False, big=True)
-         + gen_random(ctx, 40 if q else 400, True, big=True)),
+        ("cq(hand-written + exhaustive small scope)", HAND + gen_exhaustive_small(3)),
+        ("cq(random op sequences, no faults)", gen_random(rng, 25000 if q else 250000, False)),
+        ("cq(random op sequences, fault schedules)", gen_random(rng, 25000 if q else 250000, True)),
+        ("cq(every fault position in spill sequences)", fpos),
+        ("cq(64 KiB sizes)", gen_random(rng, 400 if q else 4000, False, big=True)
+         + gen_random(rng, 400 if q else 4000, True, big=True)),
+        ("cq(1 MiB temp files)", gen_megabyte(rng, 6 if q else 60)),
+    ] + ZERO_PROBES + [
+        ("cq(0-length operations, random)", gen_random(rng, 3000 if q else 30000, False, zero=True, maxops=14)
+         + gen_random(rng, 3000 if q else 30000, True, zero=True, maxops=14)),
     ]
     for name, lines in streams:
         for l in lines:
             for o in l.split(" ")[7:]:
                 ctx.dist[o.split(",")[0]] += 1
-        ctx.differential(name, [exe], "cq", lines, oracle, classify)
-        ctx.faults_fired += sum(1 for l in lines if l.split(" ")[4] != "-" or l.split(" ")[5] != "-")
+        ctx.differential(name, [exe], "cq", lines, checked, classify)
+    ctx.faults_fired += FIRED[0]
     ctx.exhaustive = False
-    ctx.notes.append("exhaustive: all op sequences of length 3 over a 15-op alphabet; every write-call index "
-                     "< %d x %d fault kinds (and mkostemp failure at every call index) in random spill "
-                     "sequences of <= 8 ops; faults_fired counts sequences run with a fault schedule"
-                     % (5 if q else 8, len(FAULTS) - 1))
+    ctx.notes.append("exhaustive: all op sequences of length 3 over a 15-op alphabet; in %d spill sequences of "
+                     "<= 8 ops every one of the %d temp-file write()/mkostemp() call positions (measured by a "
+                     "dry run) x %d fault kinds, each also followed by a second fault; faults_fired = scheduled "
+                     "non-ok syscall results actually consumed by the implementation in the fault streams"
+                     % (60 if q else 600, npos, len(FAULTS)))
     ctx.rule = ("one case = a whole op sequence on two queues with a write/mkostemp fault schedule; after every "
                 "op the chunk layout, counters, content CRC, temp-dir listing and descriptor count of the real "
                 "chunk.c are compared with the Lean model and checked by the byte-string reference oracle; "
-                "distinct = (chunk size, temp size class, #dirs, faults, temp files used, set of op outcomes)")
+                "distinct = (chunk size, temp size class, #dirs, faults, chunk kinds seen, set of op outcomes)")
     ctx.assumptions += [
         "callers respect chunk.h's obligations: file ranges lie inside the file, mark_written(n) has n <= length, "
-        "compact_mem only on MEM-only queues (violations are still compared with the model, not judged by the oracle)",
+        "compact_mem only on MEM-only queues, a self-referencing append_cq_range stays inside the queue "
+        "(the harness skips such calls; out-of-range file chunks are compared with the model but not judged by the oracle)",
         "a failed write()/pwritev() writes nothing; a short write writes a prefix (kernel semantics)",
         "read faults, splice()/sendfile()/mmap paths and close() failures are not scripted"]
 
